@@ -81,10 +81,13 @@ let check (b : block) : verdict list =
     if k <= 4 then out := v :: !out
     else (match v with Viol (s, _) -> bump ("more_viol_" ^ s) | Diff (s, _) -> bump ("more_diff_" ^ s) | Ok -> ()) in
   let mode = match find b "mode" with Some [m] -> m | _ -> "?" in
-  (* mode dupset: the requests spell the same assumption set with a repeated literal; whatever the
-     oracle finds there is the recorded finding "the cursor is keyed by the literal list" *)
+  (* mode dupset: the requests spell the same assumption set with repeated literals / in another
+     order; whatever the oracle finds there is "the cursor is keyed by the literal list" (finding
+     K12, repaired by F19: all spellings must share ONE cursor) *)
   let add v = match v with
     | Viol (s, m) when mode = "dupset" -> add (Viol ("enum:duplicate-literal-key", s ^ ": " ^ m))
+    | Diff ("foreign-key", m) when mode = "dupset" ->
+      add (Viol ("enum:duplicate-literal-key", "second-cursor: " ^ m ^ " (a spelling of the set has a cursor entry of its own)"))
     | v -> add v in
   let hook = match find b "hook" with Some ["1"] -> true | _ -> false in
   if hook then bump "blocks_with_hook_H3" else bump "blocks_hook_H3_absent_stress_only";
@@ -111,6 +114,19 @@ let check (b : block) : verdict list =
         | _ -> failwith "bad req line") (find_all b "req") in
     let nreq = List.length reqs in
     let req i = List.assoc i reqs in
+    (* the tie between a request's assumption list and its key: the extracted key function of the
+       model (Model/Enumerate.v enum_key = dedup . sort_abs, F19) applied to the literals as passed
+       must give the key the harness filed the request under (C17_key_is_set is about this function) *)
+    List.iter (fun t -> match t with
+        | i :: k :: _ :: lits ->
+          let lits = List.map ios lits in
+          let mk = Conv.ints_of_zlist (Model.enum_key (Conv.zlist_of_ints lits)) in
+          bump "request_keys_checked_against_enum_key";
+          if mk <> kinfo.(ios k).klits then
+            add (Diff ("request-key", Printf.sprintf "request %s passes [%s]: the model's key is [%s], the case files it under key %s = [%s]"
+                         i (String.concat " " (List.map string_of_int lits)) (String.concat " " (List.map string_of_int mk))
+                         k (String.concat " " (List.map string_of_int kinfo.(ios k).klits))))
+        | _ -> ()) (find_all b "req");
     (* the implementation's own sequential run in request order = the oracle's arithmetic *)
     let seqs = List.map (fun t -> match t with i :: r -> (ios i, parse_ans r) | _ -> failwith "bad seq line") (find_all b "seq") in
     let cur = Array.make nkeys 0 in
